@@ -65,8 +65,7 @@ package worker
 // idle state; the runner is created for this container.
 //@ func newRemoteRunner trusted
 //@   modifies nothing
-//@ func worker.startContainer property C14
-//@   requires wkr.starting != nil
+//@ func worker.startContainer property C14 safety -nil
 //@   calls newRemoteRunner#1: requires $0 == ctr.UUID && $1 == wkr
-//@   at assign .state#1: assert has(wkr.starting, ctr.UUID)
-//@   ensures has(wkr.starting, ctr.UUID) && wkr.state == StateRunning
+//@   at assign .state#1: assert dom(wkr.starting)[ctr.UUID]
+//@   ensures dom(wkr.starting)[ctr.UUID] && wkr.state == StateRunning
